@@ -850,3 +850,48 @@ def run(ctx):
     _run_main_r7(ctx)
     corr_single3(ctx, parts=('timestep',))
     ctx.flush()
+
+
+# ---- round 8: the same OUTPUT grid reached from different inputs, in consecutive calls ---------------------------------------------
+# (a memo keyed on the output sampling — output length and step — but not on the factor or the input: found by seed C14-r8-1)
+
+def same_output_grid(ctx):
+    import eqsig
+    from eqsig.fns import time_step
+    rng = ctx.rng
+    pairs = [((300, 2), (200, 3)), ((60, 2), (30, 4)), ((90, 4), (120, 3)), ((35, 6), (105, 2)), ((64, 8), (128, 4)), ((50, 3), (30, 5))]
+    for (n1, f1), (n2, f2) in pairs + [tuple(reversed(p)) for p in pairs[:3]]:
+        target = 2.0 ** -rng.choice([2, 3, 6])
+        recs = []
+        for n, f in ((n1, f1), (n2, f2)):
+            recs.append((gen.int_record(rng, n).astype(float), target * f, f))
+        for even in (False, True):
+            outs = [call_impl(time_step.interp_array_to_approx_dt, v, dt, target, even=even) for v, dt, f in recs]
+            for (v, dt, f), r in zip(recs, outs):
+                inputs = {'values': v, 'dt': dt, 'target_dt': target, 'even': even, 'called_after': 'a call with another input that gives the same output length and step'}
+                ctx.count_case(('same-grid', v.tobytes(), dt, target, even), True)
+                ctx.hist('same-output-grid')
+                if r[0] != 'ok':
+                    ctx.oracle('C14.a interp_array_to_approx_dt returns', False, inputs, detail=r)
+                    continue
+                out, dt_new = r[1]
+                ok = abs(dt_new * f - dt) <= 1e-15 * dt and np.array_equal(np.asarray(out)[::f][:len(v)], v)
+                ctx.oracle('C14.b refinement: the original samples reappear unchanged at their instants (step = dt / integer factor)', ok, inputs,
+                           detail={'dt_new': dt_new, 'factor': f, 'npts_out': len(out)})
+        # object level, the same way
+        sigs = [eqsig.AccSignal(v, dt) for v, dt, f in recs]
+        for s, (v, dt, f) in zip(sigs, recs):
+            r = call_impl(time_step.interp_to_approx_dt, s, target, even=False)
+            ok = r[0] == 'ok' and np.array_equal(np.asarray(r[1].values)[::f][:len(v)], v)
+            ctx.oracle('C14.b (object level) refinement retains the original samples', ok,
+                       {'values': v, 'dt': dt, 'target_dt': target, 'called_after': 'another object with the same output grid'}, detail=None if r[0] == 'ok' else r)
+    ctx.flush()
+
+
+_run_main_r8 = run
+
+
+def run(ctx):
+    _run_main_r8(ctx)
+    same_output_grid(ctx)
+    ctx.flush()
